@@ -330,4 +330,103 @@ theorem multiByte_spec (b0 : Byte) (r0 : Bytes) (hb : ¬ b0 < runeSelf) :
       simp [StepOk, validUtf8, wf2, wf3, wf4, h1, h2, hE0, h3, hED, hF0, h4, hF4, locb, hicb] <;>
       (repeat' split) <;> simp_all
 
+theorem validUtf8_ascii (b0 : Byte) (r0 : Bytes) (hb : b0 < runeSelf) :
+    validUtf8 (b0 :: r0) = validUtf8 r0 := by
+  obtain ⟨-, hAS, h1, h2, hE0, h3, hED, hF0, h4, hF4⟩ := firstFn_facts b0
+  have hb' : decide (b0 < runeSelf) = true := by simpa using hb
+  rw [hb'] at hAS
+  have h : firstFn b0 = AS := by simpa using hAS.symm
+  simp only [h, AS, S1, S2, S3, S4, S5, S6, S7, BitVec.reduceBEq, Bool.or_eq_false_iff,
+    BitVec.ofNat_eq_ofNat] at h1 h2 hE0 h3 hED hF0 h4 hF4
+  rcases r0 with _ | ⟨c1, _ | ⟨c2, _ | ⟨c3, r3⟩⟩⟩ <;>
+    simp [validUtf8, wf2, wf3, wf4, h1, h2, hE0, h3, hED, hF0, h4, hF4]
+
+theorem validLoop_nil (fuel : Nat) : validLoop (fuel+1) [] = .ok true := rfl
+
+set_option maxRecDepth 100000 in
+theorem validLoop_cons (fuel : Nat) (pi : Byte) (r : Bytes) : validLoop (fuel+1) (pi :: r) =
+    if pi < runeSelf then validLoop fuel r
+    else
+      match multiByte (pi :: r) pi with
+      | .error e => .error e
+      | .ok none => .ok false
+      | .ok (some size) => validLoop fuel ((pi :: r).drop size) := rfl
+
+/-- `StepOk` on the result of `multiByte` as a variable (keeps `multiByte` out of matches) -/
+def StepRes (b0 : Byte) (r0 : Bytes) : Option Nat → Prop
+  | none => validUtf8 (b0 :: r0) = false
+  | some size => 1 ≤ size ∧ size ≤ r0.length + 1 ∧
+      validUtf8 (b0 :: r0) = validUtf8 ((b0 :: r0).drop size)
+
+set_option maxRecDepth 100000 in
+theorem multiByte_res (b0 : Byte) (r0 : Bytes) (hb : ¬ b0 < runeSelf) :
+    ∃ o, multiByte (b0 :: r0) b0 = .ok o ∧ StepRes b0 r0 o := by
+  have hs := multiByte_spec b0 r0 hb
+  cases hm : multiByte (b0 :: r0) b0 with
+  | error e => rw [hm] at hs; exact hs.elim
+  | ok o =>
+    rw [hm] at hs
+    refine ⟨o, rfl, ?_⟩
+    cases o with
+    | none => exact hs
+    | some size => exact hs
+
+theorem validLoop_eq : ∀ (fuel : Nat) (p : Bytes), p.length < fuel →
+    validLoop fuel p = .ok (validUtf8 p) := by
+  intro fuel
+  induction fuel with
+  | zero => intro p h; omega
+  | succ fuel ih =>
+    intro p h
+    cases p with
+    | nil => rw [validLoop_nil]; rfl
+    | cons b0 r0 =>
+      rw [validLoop_cons]
+      split
+      · rename_i hb
+        rw [ih r0 (by simpa using h), validUtf8_ascii b0 r0 hb]
+      · rename_i hb
+        obtain ⟨o, hm, hs⟩ := multiByte_res b0 r0 hb
+        rw [hm]
+        cases o with
+        | none => simp only [StepRes] at hs; simp [hs]
+        | some size =>
+          simp only [StepRes] at hs
+          obtain ⟨h1, h2, h3⟩ := hs
+          simp only
+          rw [ih _ (by simp at h ⊢; omega), h3]
+
+theorem top_clear_or (a b : Byte) (h : (a ||| b) &&& 0x80 = 0) : a &&& 0x80 = 0 ∧ b &&& 0x80 = 0 := by
+  rw [BitVec.and_or_distrib_right] at h
+  exact BitVec.or_eq_zero_iff.mp h
+
+theorem top_clear_lt : ∀ a : Byte, a &&& 0x80 = 0 → a < runeSelf := forall_byte (by decide +kernel)
+
+theorem validUtf8_fastPath (p : Bytes) : validUtf8 (fastPath p) = validUtf8 p := by
+  fun_induction fastPath p with
+  | case1 a0 a1 a2 a3 a4 a5 a6 a7 r h => rfl
+  | case2 a0 a1 a2 a3 a4 a5 a6 a7 r h ih =>
+    have h0 : (a0 ||| a1 ||| a2 ||| a3 ||| a4 ||| a5 ||| a6 ||| a7) &&& 0x80 = 0 := by simpa using h
+    obtain ⟨h0, h7⟩ := top_clear_or _ _ h0
+    obtain ⟨h0, h6⟩ := top_clear_or _ _ h0
+    obtain ⟨h0, h5⟩ := top_clear_or _ _ h0
+    obtain ⟨h0, h4⟩ := top_clear_or _ _ h0
+    obtain ⟨h0, h3⟩ := top_clear_or _ _ h0
+    obtain ⟨h0, h2⟩ := top_clear_or _ _ h0
+    obtain ⟨h0, h1⟩ := top_clear_or _ _ h0
+    rw [ih, validUtf8_ascii _ _ (top_clear_lt _ h0), validUtf8_ascii _ _ (top_clear_lt _ h1),
+      validUtf8_ascii _ _ (top_clear_lt _ h2), validUtf8_ascii _ _ (top_clear_lt _ h3),
+      validUtf8_ascii _ _ (top_clear_lt _ h4), validUtf8_ascii _ _ (top_clear_lt _ h5),
+      validUtf8_ascii _ _ (top_clear_lt _ h6), validUtf8_ascii _ _ (top_clear_lt _ h7)]
+  | case3 p h => rfl
+
+/-- Go's `utf8.Valid` never faults and computes exactly "concatenation of well-formed sequences" -/
+theorem utf8ValidChecked_ok (p : Bytes) : utf8ValidChecked p = .ok (validUtf8 p) := by
+  unfold utf8ValidChecked
+  rw [validLoop_eq _ _ (Nat.lt_succ_self _), validUtf8_fastPath]
+
+theorem utf8Valid_eq (p : Bytes) : utf8Valid p = validUtf8 p := by
+  unfold utf8Valid
+  rw [utf8ValidChecked_ok]
+
 end Modbus.Role
